@@ -73,7 +73,8 @@ def series_lengths(plant):
     consumers = [int(np.size(c.power_input)) for c in es.other_load + es.propulsion_drives]
     units = [{"mode_len": int(np.size(u.load_sharing_mode)), "shares_always": bool(np.all(np.asarray(u.load_sharing_mode) == 0)),
               "power_len": int(np.size(u.power_input))} for u in es.energy_storage + es.pti_pto]
-    return {"consumers": max(consumers, default=1), "status": [int(np.size(s.status)) for s in es.power_sources] + [int(np.size(s.load_sharing_mode)) for s in es.power_sources], "units": units,
+    return {"consumers": max(consumers, default=1), "status": [int(np.size(s.status)) for s in es.power_sources] + [int(np.size(s.load_sharing_mode)) for s in es.power_sources]
+            + [int(np.size(u.status)) for u in es.energy_storage + es.pti_pto], "units": units,
             "breakers": [int(np.size(b.status)) for b in es.bus_tie_breakers]}
 
 
